@@ -179,6 +179,11 @@ def filtered_copy_of(expr, what: str):
 
 
 def rule_r3(rep, program: Program, prop=PROP, rule="R3"):
+    from . import stateproto
+
+    alt = stateproto.category_rule(rep, program, prop, rule, "ChainState.copy passes a copy of the cache dict and a copy of every variable value", "transparent", {"copy"})
+    if alt is not None:
+        return alt
     r = rep.rule(rule, "ChainState.copy passes a copy of the cache dict and a copy of every variable value", floor=2)
     f = program.method("ChainState", "copy")
     calls = [n for n in ast.walk(f.node) if isinstance(n, ast.Call) and norm(n.func) in ("type(self)", "ChainState", "self.__class__")]
@@ -312,27 +317,33 @@ def setattr_store_site(program: Program):
 
 
 def rule_r4(rep, program: Program):
-    r = rep.rule("R4", "assignment invalidates dependent cache entries; only the state protocol writes _variables/_cache", floor=2)
-    f, name_param, body, i = setattr_store_site(program)
-    r.inst({"site": "ChainState.__setattr__", "store": norm(body[i])})
-    rest = []
-    for st in body[i + 1 :]:
-        if isinstance(st, ast.Return):
-            break
-        rest.append(st)
-    inv = find_invalidation(rest, f.cls)
-    # also accept invalidation placed immediately before the store in the same block
-    if inv is None:
-        inv = find_invalidation(body[:i], f.cls)
-    if inv is None:
-        r.violate(PROP, "ChainState.__setattr__:no-invalidation", "assigning a state variable does not clear the cache entries that depend on it: every cached method keeps returning the value for the old variable", node=body[i], file=f.file)
-    elif inv[0] == "deps" and inv[1] != name_param:
-        r.violate(PROP, f"ChainState.__setattr__:invalidates[{inv[1]}]", f"assignment to variable `{name_param}` clears the dependants of `{inv[1]}` instead", node=body[i], file=f.file)
-    # who may write the protocol dictionaries
+    from . import stateproto
+
+    r = stateproto.category_rule(rep, program, PROP, "R4", "assignment invalidates dependent cache entries; only the state protocol (mici/states.py) writes _variables/_cache", "transparent", {"assign"})
+    if r is None:
+        r = rep.rule("R4", "assignment invalidates dependent cache entries; only the state protocol writes _variables/_cache", floor=2)
+        f, name_param, body, i = setattr_store_site(program)
+        r.inst({"site": "ChainState.__setattr__", "store": norm(body[i])})
+        rest = []
+        for st in body[i + 1 :]:
+            if isinstance(st, ast.Return):
+                break
+            rest.append(st)
+        inv = find_invalidation(rest, f.cls)
+        # also accept invalidation placed immediately before the store in the same block
+        if inv is None:
+            inv = find_invalidation(body[:i], f.cls)
+        if inv is None:
+            r.violate(PROP, "ChainState.__setattr__:no-invalidation", "assigning a state variable does not clear the cache entries that depend on it: every cached method keeps returning the value for the old variable", node=body[i], file=f.file)
+        elif inv[0] == "deps" and inv[1] != name_param:
+            r.violate(PROP, f"ChainState.__setattr__:invalidates[{inv[1]}]", f"assignment to variable `{name_param}` clears the dependants of `{inv[1]}` instead", node=body[i], file=f.file)
+    # who may write the protocol dictionaries: the functions of mici/states.py (the protocol itself, whatever its
+    # internal cut into helpers), nobody else
+    states_mod = next(mm for nm, mm in program.modules.items() if nm.split(".")[-1] == "states")
     allowed = {
         "ChainState.__init__", "ChainState.__setattr__", "ChainState.__setstate__",
         "cache_in_state", "cache_in_state_with_aux",
-    }
+    } | {fn.qualname for fn in program.all_functions() if str(fn.file) == str(states_mod.path)}
     n_sites = 0
     for fn in program.all_functions():
         for n in ast.walk(fn.node):
@@ -367,6 +378,11 @@ def _is_fresh_container(v) -> bool:
 
 
 def rule_r5(rep, program: Program, prop=PROP, rule="R5"):
+    from . import stateproto
+
+    alt = stateproto.category_rule(rep, program, prop, rule, "a pickle round trip keeps the variables, and every cached value it keeps stays subject to invalidation", "transparent", {"pickle"})
+    if alt is not None:
+        return alt
     r = rep.rule(rule, "pickle tables agree: __getstate__ keys/fields = __setstate__ keys/fields = fields set by __init__", floor=5)
     gs = program.method("ChainState", "__getstate__")
     ss = program.method("ChainState", "__setstate__")
